@@ -3,7 +3,10 @@
    specification functions of the model (sort_spec, boundaries, sdedup, ksort/kdedup);
    correspondence aspects compare the extracted model's output with the implementation's. *)
 open Model
+open Model.SortM
 type string = Stdlib.String.t
+let max = Stdlib.max
+let min = Stdlib.min
 open Conv
 
 type t3 = (n * n) * n   (* ((src, dst), label) *)
